@@ -2,8 +2,10 @@
 
 Workload: random import graphs over 7 modules in two packages and 4 names (every import form,
 wildcards, self-imports, cycles, cyclic wildcards, missing modules/names, relative imports past
-the top, imports inside class bodies), loaded into one collection in both orders, with
-``resolve_aliases`` repeated three times for every (implicit, external) setting.
+the top, imports inside class bodies, ``__all__`` composed from other modules' ``__all__`` in every
+spelling griffe parses, the other module being named directly or through aliases, in chains and rings),
+loaded into one collection in both orders, with ``resolve_aliases`` repeated three times for every
+(implicit, external) setting.
 Monitors: exception monitor on load / resolve_aliases; walker touching every alias;
 all-or-nothing chain check; fixpoint comparison of passive snapshots; M-MON step budget and
 stack depth ("terminates" restated as bounded logical progress).
@@ -22,7 +24,13 @@ ANCHORS = ["loader.py", "exceptions.py"]
 RULE = ("random import graphs: 7 modules (packages p, p.s, q; modules p.a, p.b, p.s.c, q.d), 0-4 statements each drawn "
         "from local definitions of X/Y/Z/W, from-imports (absolute, relative level 1-3, aliased, of names, modules and "
         "missing things), plain imports, wildcard imports (absolute/relative, self and cyclic allowed), __all__ (incl. "
-        "undefined names), imports inside a class body; both package load orders; implicit x external in "
+        "undefined names, and composed: `__all__ = [..] + m.__all__`, `+= m.__all__`, `[*m.__all__, ..]`, tuple, bare, "
+        "annotated, `from m import __all__ as N`, with m a bare name / dotted path / the module itself), imports inside a "
+        "class body; 20% of the graphs are chains/rings of 1-4 modules whose __all__ is composed from the next module's, "
+        "the next module being named by from-import, dotted import, import-as, relative import, or through aliases (a "
+        "facade module re-exporting it under another name, a dotted path through such a name, two chained facades, the "
+        "list imported through the facade), through a wildcard only, through a cyclic alias, or unbound; open chains end in a plain list, a missing "
+        "module or a non-module; 25% are re-export rings; both package load orders; implicit x external in "
         "{False,True}x{False,None}; resolve_aliases called 3 times. distinct = digest of files+options; non-trivial = "
         "graph has an import cycle (any form) or a dangling target")
 LEVEL_TEXT = ("Every generated graph is loaded and resolved by the real loader under an exception monitor, a function-entry "
@@ -34,7 +42,12 @@ LEVEL_NOTE = ("bounded to 7 modules / 4 names / <=5 statements per module; step 
               "inconclusive safety net")
 TECHNIQUE = "runtime monitoring: exception/step-budget/stack-depth monitors + alias walker + passive fixpoint snapshots over random import graphs"
 REQUIRED_COUNTERS = ["graphs_loaded", "aliases_walked", "accessor_calls", "resolved_chains_walked", "fixpoint_comparisons",
-                     "accessor_raised_resolution_error", "accessor_raised_cyclic_error", "reported_unresolved_checked"]
+                     "accessor_raised_resolution_error", "accessor_raised_cyclic_error", "reported_unresolved_checked",
+                     # the exception / step-budget monitor on load() only decides about __all__ compositions when they were
+                     # in the loaded input: named through an alias (seen as an Alias member in the loaded tree), cyclic with
+                     # every hop through an alias, and acted upon (exports grew beyond the module's own literals)
+                     "all_compositions_through_alias_in_tree", "all_composition_cycles_loaded",
+                     "all_composition_cycles_every_hop_through_alias", "exports_grown_by_composition"]
 EXHAUSTIVE = {"quick": False, "thorough": False}
 ASSUMPTIONS = ["termination is judged as bounded logical progress (function entries in _griffe), not wall-clock"]
 STEP_BUDGET = 1_000_000
@@ -111,6 +124,45 @@ def snapshot(collection) -> dict:  # noqa: ANN001
     return snap
 
 
+def lookup_passively(collection, path: str):  # noqa: ANN001, ANN201
+    """(object or None, an alias was met on the way or at the end) -- never dereferences anything."""
+    parts = path.split(".")
+    obj = collection.members.get(parts[0])
+    for comp in parts[1:]:
+        if obj is None:
+            return None, False
+        if obj.is_alias:
+            return obj, True
+        obj = obj.members.get(comp)
+    return obj, obj is not None and obj.is_alias
+
+
+def observe_exports(rec, collection, files: dict, hops: list, all_cycle: bool, all_cycle_aliased: bool) -> None:  # noqa: ANN001
+    """Evidence that ``__all__`` compositions were in the loaded input and were acted upon (passive, counts only)."""
+    import ast
+
+    rec.count("all_compositions_loaded", len(hops))
+    rec.count("all_compositions_naming_a_loaded_module", sum(1 for h in hops if h[1] is not None))
+    rec.count("all_compositions_through_alias", sum(1 for h in hops if h[1] is not None and h[2]))
+    # the same, seen in the loaded tree: the dotted path the composition names is (or passes through) an Alias member
+    rec.count("all_compositions_through_alias_in_tree", sum(1 for h in hops if h[3] and lookup_passively(collection, h[3])[1]))
+    rec.count("all_composition_cycles_loaded", int(all_cycle))
+    rec.count("all_composition_cycles_every_hop_through_alias", int(all_cycle_aliased))
+    for rel, src in files.items():
+        mod = rel[:-3].replace("/", ".").removesuffix(".__init__")
+        obj, _ = lookup_passively(collection, mod)
+        if obj is None or obj.is_alias or not obj.is_module or not obj.exports:
+            continue
+        try:
+            literal = {n.value for n in ast.walk(ast.parse(src)) if isinstance(n, ast.Constant) and isinstance(n.value, str)}
+        except SyntaxError:
+            continue
+        if any(isinstance(e, str) and e not in literal for e in obj.exports):
+            rec.count("exports_grown_by_composition")
+        if any(not isinstance(e, str) for e in obj.exports):
+            rec.count("exports_left_with_unexpanded_reference")
+
+
 def classify(files: dict, descs: dict, exc: BaseException | None, order: list, external) -> tuple[str | None, list[str]]:  # noqa: ANN001
     """Mechanism predicates for exceptions escaping load()/resolve_aliases()."""
     tried = ["C06-nested-load-mutates-members"]
@@ -143,7 +195,13 @@ def run_case(rec, files: dict, descs: dict | None, order: list[str], implicit: b
     cyc = has_any_cycle(descs)
     dangling = has_dangling(descs)
     nontrivial = cyc or dangling
-    tags = tuple(t for t, f in (("cycle", cyc), ("dangling", dangling), ("wild-cycle", graphs.has_wildcard_cycle(descs))) if f)
+    flat = _flatten(descs)
+    packages = {x for x in order if x != "resolve"}
+    hops = [h for h in graphs.export_hops(flat) if h[0].split(".")[0] in packages]
+    all_cycle, all_cycle_aliased = graphs.export_cycles(flat, packages)
+    tags = tuple(t for t, f in (("cycle", cyc), ("dangling", dangling), ("wild-cycle", graphs.has_wildcard_cycle(descs)),
+                                ("all-composition", bool(hops)), ("all-cycle", all_cycle),
+                                ("all-cycle-through-aliases", all_cycle_aliased)) if f)
     stage = "load"
     deferred: list[tuple[str, str]] = []
     loaded_now: list[str] = []
@@ -165,6 +223,7 @@ def run_case(rec, files: dict, descs: dict | None, order: list[str], implicit: b
                     else:
                         loader.load(pkg)
                 rec.count("graphs_loaded")
+                observe_exports(rec, loader.modules_collection, files, hops, all_cycle, all_cycle_aliased)
                 naliases = len(all_aliases(loader.modules_collection))
                 snaps = []
                 for i in range(3):
@@ -341,18 +400,53 @@ def describe_from_files(files: dict) -> dict:
                     d = {"t": "wild" if a.name == "*" else "from", "module": node.module or "", "name": a.name}
                     if node.level:
                         d["rel"] = node.level
+                    if a.asname:
+                        d["as"] = a.asname
                     ds.append(d)
             elif isinstance(node, ast.Import):
                 for a in node.names:
                     ds.append({"t": "import", "module": a.name, "as": a.asname})
             elif isinstance(node, (ast.FunctionDef, ast.ClassDef)):
                 ds.append({"t": "def", "name": node.name})
-            elif isinstance(node, (ast.Assign, ast.AnnAssign)):
+            elif isinstance(node, (ast.Assign, ast.AnnAssign, ast.AugAssign)):
                 tgt = node.targets[0] if isinstance(node, ast.Assign) else node.target
-                if isinstance(tgt, ast.Name):
+                if isinstance(tgt, ast.Name) and tgt.id == "__all__" and node.value is not None:
+                    ds.extend(_all_references(node.value))
+                elif isinstance(tgt, ast.Name) and not isinstance(node, ast.AugAssign):
                     ds.append({"t": "def", "name": tgt.id})
         descs[mod] = ds
     return descs
+
+
+def _all_references(value) -> list[dict]:  # noqa: ANN001
+    """The other lists an ``__all__`` value is composed from: ``x.y.__all__`` attributes and bare names."""
+    import ast
+
+    out: list[dict] = []
+
+    def dotted(node) -> str | None:  # noqa: ANN001
+        if isinstance(node, ast.Name):
+            return node.id
+        if isinstance(node, ast.Attribute):
+            left = dotted(node.value)
+            return None if left is None else f"{left}.{node.attr}"
+        return None
+
+    def visit(node) -> None:  # noqa: ANN001
+        if isinstance(node, (ast.Name, ast.Attribute)):
+            path = dotted(node)
+            if path == "__all__":
+                out.append({"t": "allref", "ref": "", "bare": False})
+            elif path and path.endswith(".__all__"):
+                out.append({"t": "allref", "ref": path[: -len(".__all__")], "bare": False})
+            elif path:
+                out.append({"t": "allref", "ref": path, "bare": True})
+            return
+        for child in ast.iter_child_nodes(node):
+            visit(child)
+
+    visit(value)
+    return out
 
 
 def _flatten(descs: dict) -> dict:
@@ -370,6 +464,9 @@ def has_any_cycle(descs: dict) -> bool:
                     edges[mod].add(tgt)
                     if d["t"] == "from":
                         edges[mod].add(tgt + "." + d["name"])
+    for mod, reached, _, _ in graphs.export_hops(descs):
+        if reached:
+            edges[mod].add(reached)
     for start in edges:
         seen, todo = set(), list(edges[start])
         while todo:
@@ -404,9 +501,13 @@ def run_shard(spec: dict, rec) -> None:  # noqa: ANN001
     rng = random.Random(spec["seed"])
     steps = mon.Steps()
     for _ in range(spec["count"]):
-        if rng.random() < 0.3:
+        r = rng.random()
+        if r < 0.25:
             files, descs = graphs.gen_ring(rng)
             rec.count("ring_graphs")
+        elif r < 0.45:
+            files, descs = graphs.gen_allring(rng)
+            rec.count("all_composition_graphs")
         else:
             files, descs = graphs.gen_graph(rng, hostile=spec["hostile"])
         order = rng.choice([["p", "q"], ["q", "p"], ["p"], ["q", "p"], ["p", "resolve", "q"], ["q", "resolve", "p"],
